@@ -8,7 +8,7 @@ try:
 except ImportError:  # pragma: no cover
     from monotonic import monotonic
 
-from .common import _Future, MAX_TIMEOUT, copy_future_exception
+from .common import _Future, MAX_TIMEOUT, copy_future_exception, try_set_result
 from .wrap import CanCustomizeBind
 from .helpers import executor_loop
 from .event import get_event, is_shutdown
@@ -392,12 +392,14 @@ class RetryExecutor(CanCustomizeBind, Executor):
 
                     break
 
-        # This shouldn't be possible.
-        # - Future holds a lock on itself, and has checked that it's not already done
-        # - The only other path for removing a job is in delegate_callback, but the
-        #   job is only removed *after* set_result/set_exception which would wait
-        #   for the future's lock.
-        assert found_job, "Cancel called on orphan %s" % future
+        if not found_job:
+            # No job refers to this future any more: it was dropped without being
+            # resolved (e.g. the executor was shut down before the job could be
+            # handed to the delegate, or the submit thread is about to resolve a
+            # job whose retries were stopped). There's nothing left to cancel
+            # in the delegate, so don't veto the cancel.
+            self._log.debug("Cancel of future without job: %s", future)
+            return True
 
         self._log.debug("Try cancel delegate: %s", found_job)
 
@@ -433,8 +435,13 @@ class RetryExecutor(CanCustomizeBind, Executor):
         assert found_job, "BUG: no job associated with delegate %s" % delegate_future
 
         if delegate_future.cancelled():
-            # nothing to do, retrying on cancel is not allowed
+            # retrying on cancel is not allowed: the job is finished.
+            # If the cancel didn't come from our own future (e.g. a wrapped
+            # TimeoutExecutor cancelled the delegate), our future can never be
+            # resolved, so it ends up cancelled too.
             self._log.debug("Delegate was cancelled: %s", delegate_future)
+            self._pop_job(found_job)
+            found_job.future._me_delegate_cancelled()
             return
 
         (should_retry, sleep_time) = eval_policy(found_job, self._log)
@@ -464,7 +471,8 @@ def copy_future(f1, f2):
     if exception:
         copy_future_exception(f1, f2)
     else:
-        f2.set_result(result)
+        # f2 may have been cancelled in the meantime
+        try_set_result(f2, result)
 
 
 def eval_policy(job, logger):
